@@ -545,9 +545,22 @@ Proof.
   intros H HQ; inversion H; subst. eapply IH; [eassumption|]. eapply finish_w_QI; eassumption.
 Qed.
 
+Lemma tick_calc_QI s s' e : tick_calc c s = (s', e) -> QI s -> QI s'.
+Proof.
+  unfold tick_calc. destruct (fst (f_scripts s)) as [|n rest]; [intros H; inversion H; subst; exact (fun x => x)|].
+  destruct (n =? f_size (set_scripts s (rest, snd (f_scripts s)))); [intros H; inversion H; subst; exact (fun x => x)|].
+  intros H HQ. eapply resize_QI; [exact H|exact HQ].
+Qed.
+
+Lemma tick_ping_QI s : QI s -> QI (fst (tick_ping s)).
+Proof.
+  unfold tick_ping. destruct (snd (f_scripts s)) as [|l rest]; [exact (fun x => x)|].
+  destruct (f_discard s) as [[l0 m0]|]; exact (fun x => x).
+Qed.
+
 Lemma step_QI0 s o : QI s -> QI (fst (step0 c s o)).
 Proof.
-  intros HQ. destruct o as [j|i| |i|i|n| |dt| | |i|i|d]; cbn [step0].
+  intros HQ. destruct o as [j|i| |i|i|n| |dt| | |i|i|d| |]; cbn [step0].
   11:{ destruct (f_stopped s); [exact HQ|]. destruct (find_w (f_pool s) i) as [w|] eqn:Ef; [|exact HQ].
        destruct (w_alive w && match w_cur w with None => true | Some _ => false end) eqn:Ec; [|exact HQ].
        cbn [fst]. destruct HQ as [H1 H2]. split; [exact H1|]. cbn [set_pool f_pool].
@@ -558,8 +571,20 @@ Proof.
        destruct (w_alive w); [exact HQ|]. destruct (worker_died c s i) as [s' e] eqn:E. cbn [fst].
        eapply worker_died_QI; eassumption. }
   11:{ destruct (f_stopped s); [exact HQ|].
-       destruct (with_after (set_discard s d, [])) as [s' e] eqn:E. cbn [fst].
+       destruct (with_after (set_discard (set_scripts s (fst (f_scripts s), [])) d, [])) as [s' e] eqn:E. cbn [fst].
        eapply with_after_QI; [exact E|]. exact HQ. }
+  11:{ destruct (f_stopped s); [exact HQ|].
+       destruct (with_after (s, @nil ev)) as [s' e] eqn:E. cbn [fst]. eapply with_after_QI; [exact E|]. exact HQ. }
+  11:{ destruct (f_stopped s); [exact HQ|].
+       assert (HQ0 : QI (set_now s (f_now s + tick_ns))) by exact HQ.
+       destruct (tick_calc c (set_now s (f_now s + tick_ns))) as [sa ea] eqn:Ec.
+       pose proof (tick_calc_QI _ _ _ Ec HQ0) as HQa.
+       destruct (with_after (sa, ea)) as [s1 e1] eqn:E1.
+       assert (HQ1 : QI s1) by (eapply with_after_QI; [exact E1|exact HQa]).
+       destruct (f_stopped s1); [exact HQ1|].
+       pose proof (tick_ping_QI s1 HQ1) as HQp. destruct (tick_ping s1) as [sp0 ep0] eqn:Ep. cbn [fst] in HQp.
+       destruct (with_after (sp0, ep0)) as [s2 e2] eqn:E2. cbn [fst].
+       eapply with_after_QI; [exact E2|exact HQp]. }
   - destruct (f_stopped s); [exact HQ|].
     destruct (with_after (dispatch c s j)) as [s' e] eqn:E. cbn [fst].
     eapply with_after_QI; [exact E|]. destruct (dispatch c s j) as [s0 e0] eqn:Ed. cbn [fst].
@@ -731,11 +756,12 @@ Proof.
   specialize (IH s1). destruct (finish_list c s1 r) as [s2 e2]. cbn [fst] in *. congruence.
 Qed.
 
-Definition is_update (o : fop) : bool := match o with FUpdate _ => true | _ => false end.
+(* labels that can change the discard settings in force: UpdateSettings, and a tick (Dynamic limit) *)
+Definition is_update (o : fop) : bool := match o with FUpdate _ | FTick => true | _ => false end.
 
 Lemma step0_disc c s o : is_update o = false -> f_discard (fst (step0 c s o)) = f_discard s.
 Proof.
-  intros Ho. destruct o as [j|i| |i|i|n| |dt| | |i|i|d]; cbn [step0]; try discriminate.
+  intros Ho. destruct o as [j|i| |i|i|n| |dt| | |i|i|d| |]; cbn [step0]; try discriminate.
   - destruct (f_stopped s); [reflexivity|]. rewrite with_after_disc.
     destruct (dispatch c s j) as [s0 e0] eqn:E. cbn [fst]. eapply dispatch_disc; eassumption.
   - apply finish_w_disc.
@@ -757,6 +783,7 @@ Proof.
   - destruct (f_stopped s); [reflexivity|]. destruct (find_w (f_pool s) i) as [w|]; [|reflexivity].
     destruct (w_alive w); [reflexivity|]. destruct (worker_died c s i) as [s' e] eqn:E. cbn [fst].
     eapply worker_died_disc; eassumption.
+  - destruct (f_stopped s); [reflexivity|]. rewrite with_after_disc. reflexivity.
 Qed.
 
 Lemma step_disc c s o : is_update o = false -> f_discard (fst (step c s o)) = f_discard s.
@@ -771,14 +798,17 @@ Lemma step_update c s d :
       f_q (fst (step c s (FUpdate d))) = f_q s /\ f_pool (fst (step c s (FUpdate d))) = f_pool s).
 Proof.
   intros Hns. unfold step. cbn [step0]. rewrite Hns. unfold with_after.
-  pose proof (after_message_disc (set_discard s d)) as Hd.
-  unfold after_message in *. cbn [set_discard f_drain f_pool f_q] in *.
+  set (s0 := set_discard (set_scripts s (fst (f_scripts s), [])) d).
+  assert (H0 : f_discard s0 = d /\ f_q s0 = f_q s /\ f_pool s0 = f_pool s /\ f_drain s0 = f_drain s)
+    by (repeat split).
+  destruct H0 as (A & B & C & D). clearbody s0.
+  pose proof (after_message_disc s0) as Hd. unfold after_message in *. rewrite D in *.
   destruct (f_drain s).
-  - cbn [fst f_discard f_stopped f_q f_pool] in *. split; [reflexivity|intros _; split; reflexivity].
-  - destruct (all_available (f_pool s) && (len (f_q s) =? 0)); cbn [fst stop_factory f_discard f_stopped f_q f_pool set_dstate] in *.
-    + split; [reflexivity|discriminate].
-    + split; [reflexivity|intros _; split; reflexivity].
-  - cbn [fst stop_factory f_discard f_stopped]. split; [reflexivity|discriminate].
+  - cbn [fst] in *. split; [congruence|intros _; split; assumption].
+  - destruct (all_available (f_pool s0) && (len (f_q s0) =? 0)).
+    + unfold stop_factory in *. cbn [fst f_discard f_stopped set_dstate] in *. split; [congruence|discriminate].
+    + cbn [fst] in *. split; [congruence|intros _; split; assumption].
+  - unfold stop_factory in *. cbn [fst f_discard f_stopped] in *. split; [congruence|discriminate].
 Qed.
 
 Lemma step_QI c L m K s o :
@@ -1296,11 +1326,28 @@ Proof.
   destruct (IH _ _ _ E2 A1) as (B1 & B2 & B3). split; [exact B1|split; [congruence|auto]].
 Qed.
 
+Definition is_tick (o : fop) : bool := match o with FTick => true | _ => false end.
+
+Lemma tick_calc_RI c s s' e : tick_calc c s = (s', e) -> f_stopped s = false -> RI s -> RI s' /\ f_stopped s' = false.
+Proof.
+  unfold tick_calc. destruct (fst (f_scripts s)) as [|n rest]; [intros H; inversion H; subst; auto|].
+  destruct (n =? f_size (set_scripts s (rest, snd (f_scripts s)))); [intros H; inversion H; subst; auto|].
+  intros H Hns HR. assert (HR' : RI (set_scripts s (rest, snd (f_scripts s)))) by exact HR.
+  destruct (resize_RI _ _ _ _ _ H Hns HR') as (A & B & _). split; assumption.
+Qed.
+
+Lemma tick_ping_RI s : RI s -> RI (fst (tick_ping s)) /\ f_stopped (fst (tick_ping s)) = f_stopped s.
+Proof.
+  unfold tick_ping. destruct (snd (f_scripts s)) as [|l rest]; [auto|].
+  destruct (f_discard s) as [[l0 m0]|]; auto.
+Qed.
+
 Lemma step_RI0 c s o : RI s ->
   let s' := fst (step0 c s o) in
-  RI s' /\ (f_stopped s' = false -> f_stopped s = false /\ f_size s' = size_after o (f_size s)).
+  RI s' /\ (f_stopped s' = false ->
+            f_stopped s = false /\ (is_tick o = false -> f_size s' = size_after o (f_size s))).
 Proof.
-  intros HR. cbn zeta. destruct o as [j|i| |i|i|n| |dt| | |i|i|d]; cbn [step0 size_after].
+  intros HR. cbn zeta. destruct o as [j|i| |i|i|n| |dt| | |i|i|d| |]; cbn [step0 size_after].
   11:{ destruct (f_stopped s) eqn:Hst; [cbn [fst]; split; [exact HR|congruence]|].
        destruct (find_w (f_pool s) i) as [w|] eqn:Ef; [|cbn [fst]; split; [exact HR|auto]].
        destruct (w_alive w && match w_cur w with None => true | Some _ => false end); [|cbn [fst]; split; [exact HR|auto]].
@@ -1320,15 +1367,34 @@ Proof.
        destruct (worker_died c s i) as [s' e] eqn:E. cbn [fst].
        destruct (worker_died_RI _ _ _ _ _ E Hst HR) as (A1 & A2 & A3). split; [exact A1|auto]. }
   11:{ destruct (f_stopped s) eqn:Hst; [cbn [fst]; split; [exact HR|congruence]|].
-       destruct (with_after (set_discard s d, [])) as [s' e] eqn:E. cbn [fst].
-       assert (HR' : RI (fst (set_discard s d, @nil ev))) by exact HR.
+       destruct (with_after (set_discard (set_scripts s (fst (f_scripts s), [])) d, [])) as [s' e] eqn:E. cbn [fst].
+       assert (HR' : RI (fst (set_discard (set_scripts s (fst (f_scripts s), [])) d, @nil ev))) by exact HR.
        destruct (with_after_RI _ _ _ E HR') as (A1 & A2 & A3). cbn [fst set_discard f_size] in *.
-       split; [exact A1|]. intros _. split; [reflexivity|exact A2]. }
+       split; [exact A1|]. intros _. split; [reflexivity|intros _; exact A2]. }
+  11:{ destruct (f_stopped s) eqn:Hst; [cbn [fst]; split; [exact HR|congruence]|].
+       destruct (with_after (s, @nil ev)) as [s' e] eqn:E. cbn [fst].
+       assert (HR' : RI (fst (s, @nil ev))) by exact HR.
+       destruct (with_after_RI _ _ _ E HR') as (A1 & A2 & A3). cbn [fst] in *.
+       split; [exact A1|]. intros _. split; [reflexivity|intros _; exact A2]. }
+  11:{ destruct (f_stopped s) eqn:Hst; [cbn [fst set_now f_stopped]; split; [exact HR|congruence]|].
+       assert (HR0 : RI (set_now s (f_now s + tick_ns))) by exact HR.
+       assert (Hns0 : f_stopped (set_now s (f_now s + tick_ns)) = false) by exact Hst.
+       destruct (tick_calc c (set_now s (f_now s + tick_ns))) as [sa ea] eqn:Ec.
+       destruct (tick_calc_RI _ _ _ _ Ec Hns0 HR0) as [HRa _].
+       destruct (with_after (sa, ea)) as [s1 e1] eqn:E1.
+       assert (HRa' : RI (fst (sa, ea))) by exact HRa.
+       destruct (with_after_RI _ _ _ E1 HRa') as (B1 & _ & _).
+       destruct (f_stopped s1) eqn:Hs1; [cbn [fst]; split; [exact B1|congruence]|].
+       destruct (tick_ping_RI s1 B1) as [HRp _]. destruct (tick_ping s1) as [sp0 ep0] eqn:Ep.
+       destruct (with_after (sp0, ep0)) as [s2 e2] eqn:E2. cbn [fst] in *.
+       assert (HRp' : RI (fst (sp0, ep0))) by exact HRp.
+       destruct (with_after_RI _ _ _ E2 HRp') as (C1 & _ & _).
+       split; [exact C1|]. intros _. split; [reflexivity|discriminate]. }
   - destruct (f_stopped s) eqn:Hst; [cbn [fst]; split; [exact HR|congruence]|].
     destruct (with_after (dispatch c s j)) as [s' e] eqn:E. cbn [fst].
     destruct (dispatch c s j) as [s0 e0] eqn:Ed. pose proof (dispatch_frame _ _ _ _ _ Ed) as Fr.
     destruct (with_after_RI _ _ _ E (RI_frame _ _ HR Fr)) as (A1 & A2 & A3). cbn [fst] in *.
-    destruct Fr as (F1 & _). split; [exact A1|]. intros _. split; [reflexivity|congruence].
+    destruct Fr as (F1 & _). split; [exact A1|]. intros _. split; [reflexivity|intros _; congruence].
   - destruct (finish_w c s i None) as [s' e] eqn:E. cbn [fst].
     destruct (finish_w_RI _ _ _ _ _ _ E HR) as (A1 & A2 & A3). split; [exact A1|]. auto.
   - destruct (finish_list c s (busy_snapshot s)) as [s' e] eqn:E. cbn [fst].
@@ -1346,12 +1412,12 @@ Proof.
     destruct (resize c s n) as [s0 e0] eqn:Ed.
     destruct (resize_RI _ _ _ _ _ Ed Hst HR) as (R1 & R2 & R3).
     destruct (with_after_RI _ _ _ E R1) as (A1 & A2 & A3). cbn [fst] in *.
-    split; [exact A1|]. intros _. split; [reflexivity|congruence].
+    split; [exact A1|]. intros _. split; [reflexivity|intros _; congruence].
   - destruct (f_stopped s) eqn:Hst; [cbn [fst]; split; [exact HR|congruence]|].
     destruct (with_after (set_dstate s Draining, [EHook HDraining])) as [s' e] eqn:E. cbn [fst].
     assert (HR' : RI (fst (set_dstate s Draining, [EHook HDraining]))) by exact HR.
     destruct (with_after_RI _ _ _ E HR') as (A1 & A2 & A3). cbn [fst set_dstate f_size] in *.
-    split; [exact A1|]. intros _. split; [reflexivity|exact A2].
+    split; [exact A1|]. intros _. split; [reflexivity|intros _; exact A2].
   - cbn [fst]. split; [exact HR|auto].
   - cbn [fst]. split; [exact HR|auto].
   - destruct (f_stopped s) eqn:Hst; [cbn [fst]; split; [exact HR|congruence]|].
@@ -1361,7 +1427,8 @@ Proof.
 Qed.
 Lemma step_RI c s o : RI s ->
   let s' := fst (step c s o) in
-  RI s' /\ (f_stopped s' = false -> f_stopped s = false /\ f_size s' = size_after o (f_size s)).
+  RI s' /\ (f_stopped s' = false ->
+            f_stopped s = false /\ (is_tick o = false -> f_size s' = size_after o (f_size s))).
 Proof. unfold step. apply step_RI0. Qed.
 
 
@@ -1377,13 +1444,15 @@ Qed.
 
 Lemma state_after_RI c ops : forall s, RI s ->
   let s' := state_after c s ops in
-  RI s' /\ (f_stopped s' = false -> f_stopped s = false /\ f_size s' = target_after (f_size s) ops).
+  RI s' /\ (f_stopped s' = false -> f_stopped s = false
+            /\ (forallb (fun o => negb (is_tick o)) ops = true -> f_size s' = target_after (f_size s) ops)).
 Proof.
-  induction ops as [|o r IH]; intros s HR; cbn [state_after target_after].
+  induction ops as [|o r IH]; intros s HR; cbn [state_after target_after forallb].
   { split; [exact HR|auto]. }
   destruct (step_RI c s o HR) as [H1 H2]. destruct (IH _ H1) as [H3 H4]. split; [exact H3|].
   intros Hns. destruct (H4 Hns) as [H5 H6]. destruct (H2 H5) as [H7 H8]. split; [exact H7|].
-  rewrite H6, H8. destruct o; cbn [size_after]; reflexivity.
+  intros Hno. apply andb_true_iff in Hno. destruct Hno as [Ho Hr]. apply negb_true_iff in Ho.
+  rewrite (H6 Hr), (H8 Ho). destruct o; cbn [size_after]; reflexivity.
 Qed.
 
 (* For every configuration and EVERY label sequence (resizes interleaved with dispatches, busy
@@ -1395,7 +1464,7 @@ Qed.
 Theorem resize_converges c ops :
   let s := state_after c (fst (init c 0)) ops in
   f_stopped s = false -> all_available (f_pool s) = true -> forallb w_alive (f_pool s) = true ->
-  f_size s = target_after (c_n0 c) ops
+  (forallb (fun o => negb (is_tick o)) ops = true -> f_size s = target_after (c_n0 c) ops)
   /\ (forall i, (exists w, find_w (f_pool s) i = Some w) <-> i < f_size s)
   /\ (forall i w, find_w (f_pool s) i = Some w -> w_drain w = false).
 Proof.
@@ -1508,17 +1577,43 @@ Proof.
   intros H Hc; inversion H; subst. eapply IH; [eassumption|]. eapply finish_w_closing; eassumption.
 Qed.
 
+Lemma tick_calc_mode c s s' e : tick_calc c s = (s', e) -> f_drain s' = f_drain s.
+Proof.
+  unfold tick_calc. destruct (fst (f_scripts s)) as [|n rest]; [intros H; inversion H; reflexivity|].
+  destruct (n =? f_size (set_scripts s (rest, snd (f_scripts s)))); [intros H; inversion H; reflexivity|].
+  intros H. apply resize_mode in H. exact H.
+Qed.
+
+Lemma tick_ping_mode s : f_drain (fst (tick_ping s)) = f_drain s /\ f_stopped (fst (tick_ping s)) = f_stopped s
+  /\ snd (tick_ping s) = [].
+Proof.
+  unfold tick_ping. destruct (snd (f_scripts s)) as [|l rest]; [repeat split|].
+  destruct (f_discard s) as [[l0 m0]|]; repeat split.
+Qed.
+
 Lemma step_closing0 c s o : closing s -> closing (fst (step0 c s o)).
 Proof.
-  intros Hc. destruct o as [j|i| |i|i|n| |dt| | |i|i|d]; cbn [step0].
+  intros Hc. destruct o as [j|i| |i|i|n| |dt| | |i|i|d| |]; cbn [step0].
   11:{ destruct (f_stopped s) eqn:Hst; [exact Hc|]. destruct (find_w (f_pool s) i) as [w|]; [|exact Hc].
        destruct (w_alive w && match w_cur w with None => true | Some _ => false end); exact Hc. }
   11:{ destruct (f_stopped s) eqn:Hst; [exact Hc|]. destruct (find_w (f_pool s) i) as [w|]; [|exact Hc].
        destruct (w_alive w); [exact Hc|]. destruct (worker_died c s i) as [s' e] eqn:E. cbn [fst].
        destruct Hc as [Hc|Hc]; [|congruence]. left. rewrite (worker_died_mode _ _ _ _ _ E). exact Hc. }
   11:{ destruct (f_stopped s) eqn:Hst; [exact Hc|].
-       destruct (with_after (set_discard s d, [])) as [s' e] eqn:E. cbn [fst].
+       destruct (with_after (set_discard (set_scripts s (fst (f_scripts s), [])) d, [])) as [s' e] eqn:E. cbn [fst].
        eapply with_after_closing; [exact E|]. exact Hc. }
+  11:{ destruct (f_stopped s) eqn:Hst; [exact Hc|].
+       destruct (with_after (s, @nil ev)) as [s' e] eqn:E. cbn [fst]. eapply with_after_closing; [exact E|]. exact Hc. }
+  11:{ destruct (f_stopped s) eqn:Hst; [right; exact Hst|].
+       destruct Hc as [Hc|Hc]; [|congruence].
+       destruct (tick_calc c (set_now s (f_now s + tick_ns))) as [sa ea] eqn:Ec.
+       pose proof (tick_calc_mode _ _ _ _ Ec) as Hm. cbn [set_now f_drain] in Hm.
+       destruct (with_after (sa, ea)) as [s1 e1] eqn:E1.
+       assert (Hc1 : closing s1) by (eapply with_after_closing; [exact E1|]; left; cbn [fst]; congruence).
+       destruct (f_stopped s1) eqn:Hs1; [exact Hc1|].
+       destruct (tick_ping_mode s1) as (P1 & P2 & _). destruct (tick_ping s1) as [sp0 ep0] eqn:Ep. cbn [fst] in *.
+       destruct (with_after (sp0, ep0)) as [s2 e2] eqn:E2. cbn [fst].
+       eapply with_after_closing; [exact E2|]. cbn [fst]. eapply closing_mode; [exact P1|exact P2|exact Hc1]. }
   - destruct (f_stopped s) eqn:Hst; [exact Hc|].
     destruct (with_after (dispatch c s j)) as [s' e] eqn:E. cbn [fst].
     eapply with_after_closing; [exact E|]. destruct (dispatch c s j) as [s0 e0] eqn:Ed. cbn [fst].
@@ -1869,6 +1964,14 @@ Qed.
 
 (* one label from a living factory: a draining hook iff the label is DrainRequests, then the
    stopped hook iff the factory stops in this step; a stopped factory runs no hook and stays stopped *)
+Lemma tick_calc_quiet c s s' e : tick_calc c s = (s', e) ->
+  hooks_of e = [] /\ f_stopped s' = f_stopped s.
+Proof.
+  unfold tick_calc. destruct (fst (f_scripts s)) as [|n rest]; [intros H; inversion H; split; reflexivity|].
+  destruct (n =? f_size (set_scripts s (rest, snd (f_scripts s)))); [intros H; inversion H; split; reflexivity|].
+  intros H. apply resize_quiet in H. exact H.
+Qed.
+
 Lemma step_hooks0 c s o :
   (f_stopped s = true -> hooks_of (snd (step0 c s o)) = [] /\ f_stopped (fst (step0 c s o)) = true)
   /\ (f_stopped s = false ->
@@ -1880,7 +1983,7 @@ Proof.
     { induction l' as [|[i' id'] r' IH']; cbn [finish_list]; [reflexivity|].
       unfold finish_w. rewrite Hst. rewrite IH'. reflexivity. }
     rewrite Hrest. split; [reflexivity|exact Hst].
-  - destruct o as [j|i| |i|i|n| |dt| | |i|i|d]; cbn [step0 drain_hook app]; try rewrite Hst.
+  - destruct o as [j|i| |i|i|n| |dt| | |i|i|d| |]; cbn [step0 drain_hook app]; try rewrite Hst.
     11:{ destruct (find_w (f_pool s) i) as [w|]; [|cbn [fst snd]; rewrite Hst; reflexivity].
          destruct (w_alive w && match w_cur w with None => true | Some _ => false end);
            cbn [fst snd set_pool f_stopped]; rewrite Hst; reflexivity. }
@@ -1888,7 +1991,16 @@ Proof.
          destruct (w_alive w); [cbn [fst snd]; rewrite Hst; reflexivity|].
          destruct (worker_died c s i) as [s' e] eqn:E. destruct (worker_died_quiet _ _ _ _ _ E) as [Hq Hs].
          cbn [fst snd]. rewrite Hq, Hs, Hst. reflexivity. }
-    11:{ apply (with_after_hooks (set_discard s d, [])); [exact Hst|reflexivity]. }
+    11:{ apply (with_after_hooks (set_discard (set_scripts s (fst (f_scripts s), [])) d, [])); [exact Hst|reflexivity]. }
+    11:{ apply (with_after_hooks (s, [])); [exact Hst|reflexivity]. }
+    11:{ destruct (tick_calc c (set_now s (f_now s + tick_ns))) as [sa ea] eqn:Ec.
+         destruct (tick_calc_quiet _ _ _ _ Ec) as [Hq Hs]. cbn [set_now f_stopped] in Hs.
+         pose proof (with_after_hooks (sa, ea)) as H1. cbn [fst snd] in H1. specialize (H1 ltac:(congruence) Hq).
+         destruct (with_after (sa, ea)) as [s1 e1]. cbn [fst snd] in H1.
+         destruct (f_stopped s1) eqn:Hs1; [cbn [fst snd]; rewrite Hs1; exact H1|].
+         destruct (tick_ping_mode s1) as (_ & P2 & P3). destruct (tick_ping s1) as [sp0 ep0]. cbn [fst snd] in *. subst ep0.
+         pose proof (with_after_hooks (sp0, [])) as H2. cbn [fst snd] in H2. specialize (H2 ltac:(congruence) eq_refl).
+         destruct (with_after (sp0, [])) as [s2 e2]. cbn [fst snd] in *. rewrite hooks_app, H1, H2. reflexivity. }
     + destruct (dispatch c s j) as [s0 e0] eqn:Ed. pose proof (dispatch_quiet _ _ _ _ _ Ed) as Hq.
       destruct (dispatch_frame _ _ _ _ _ Ed) as (_ & _ & F3 & _).
       apply (with_after_hooks (s0, e0)); [cbn [fst]; congruence|exact Hq].
@@ -1994,14 +2106,23 @@ Qed.
 
 Lemma step_calm0 c s o : is_drain o = false -> calm s -> calm (fst (step0 c s o)).
 Proof.
-  intros Ho Hc. pose proof Hc as [H1 H2]. destruct o as [j|i| |i|i|n| |dt| | |i|i|d]; cbn [step0]; try discriminate; try rewrite H2.
+  intros Ho Hc. pose proof Hc as [H1 H2]. destruct o as [j|i| |i|i|n| |dt| | |i|i|d| |]; cbn [step0]; try discriminate; try rewrite H2.
   10:{ destruct (find_w (f_pool s) i) as [w|]; [|exact Hc].
        destruct (w_alive w && match w_cur w with None => true | Some _ => false end); [|exact Hc].
        cbn [fst]. split; assumption. }
   10:{ destruct (find_w (f_pool s) i) as [w|]; [|exact Hc]. destruct (w_alive w); [exact Hc|].
        destruct (worker_died c s i) as [s' e] eqn:E. cbn [fst].
        destruct (worker_died_quiet _ _ _ _ _ E) as [_ Hs]. split; [rewrite (worker_died_mode _ _ _ _ _ E); exact H1|congruence]. }
-  10:{ apply (with_after_calm (set_discard s d, [])). exact Hc. }
+  10:{ apply (with_after_calm (set_discard (set_scripts s (fst (f_scripts s), [])) d, [])). exact Hc. }
+  10:{ apply (with_after_calm (s, [])). exact Hc. }
+  10:{ destruct (tick_calc c (set_now s (f_now s + tick_ns))) as [sa ea] eqn:Ec.
+       pose proof (tick_calc_mode _ _ _ _ Ec) as Hm. destruct (tick_calc_quiet _ _ _ _ Ec) as [_ Hs].
+       cbn [set_now f_drain f_stopped] in Hm, Hs.
+       pose proof (with_after_calm (sa, ea)) as C1. cbn [fst] in C1. specialize (C1 ltac:(split; congruence)).
+       destruct (with_after (sa, ea)) as [s1 e1]. cbn [fst] in C1. destruct C1 as [D1 D2]. rewrite D2.
+       destruct (tick_ping_mode s1) as (P1 & P2 & _). destruct (tick_ping s1) as [sp0 ep0]. cbn [fst] in *.
+       pose proof (with_after_calm (sp0, ep0)) as C2. cbn [fst] in C2. specialize (C2 ltac:(split; congruence)).
+       destruct (with_after (sp0, ep0)) as [s2 e2]. cbn [fst] in *. exact C2. }
   - destruct (dispatch c s j) as [s0 e0] eqn:Ed. apply (with_after_calm (s0, e0)). cbn [fst].
     destruct (dispatch_frame _ _ _ _ _ Ed) as (_ & F2 & F3 & _). split; congruence.
   - apply finish_w_calm. exact Hc.
@@ -2289,6 +2410,13 @@ Definition step_answer (o : fop) (l : list ev) : Prop :=
   | _ => l = []
   end.
 
+Lemma tick_calc_sp c s s' e : tick_calc c s = (s', e) -> sp e = [].
+Proof.
+  unfold tick_calc. destruct (fst (f_scripts s)) as [|n rest]; [intros H; inversion H; reflexivity|].
+  destruct (n =? f_size (set_scripts s (rest, snd (f_scripts s)))); [intros H; inversion H; reflexivity|].
+  apply resize_sp.
+Qed.
+
 Lemma step_sp0 c s o :
   (f_stopped s = true ->
      sp (snd (step0 c s o)) = match o with FDispatch j => [EDropped (jid j)] | _ => [] end
@@ -2299,7 +2427,7 @@ Proof.
   split; intros Hst.
   - destruct o; cbn [step0]; unfold finish_w; try rewrite Hst; try (split; [reflexivity|exact Hst]).
     rewrite (finish_list_stopped c _ s Hst). split; [reflexivity|exact Hst].
-  - destruct o as [j|i| |i|i|n| |dt| | |i|i|d]; cbn [step0 step_answer]; try rewrite Hst.
+  - destruct o as [j|i| |i|i|n| |dt| | |i|i|d| |]; cbn [step0 step_answer]; try rewrite Hst.
     11:{ exists []. split; [reflexivity|].
          destruct (find_w (f_pool s) i) as [w|]; [|cbn [fst snd]; rewrite Hst; reflexivity].
          destruct (w_alive w && match w_cur w with None => true | Some _ => false end);
@@ -2310,7 +2438,19 @@ Proof.
          destruct (worker_died c s i) as [s' e] eqn:E. destruct (worker_died_quiet _ _ _ _ _ E) as [_ Hs].
          cbn [fst snd]. rewrite (worker_died_sp _ _ _ _ _ E), Hs, Hst. reflexivity. }
     11:{ exists []. split; [reflexivity|].
-         pose proof (with_after_sp (set_discard s d, [])) as H. cbn [fst snd] in H. rewrite H by exact Hst. reflexivity. }
+         pose proof (with_after_sp (set_discard (set_scripts s (fst (f_scripts s), [])) d, [])) as H. cbn [fst snd] in H. rewrite H by exact Hst. reflexivity. }
+    11:{ exists []. split; [reflexivity|].
+         pose proof (with_after_sp (s, [])) as H. cbn [fst snd] in H. rewrite H by exact Hst. reflexivity. }
+    11:{ exists []. split; [reflexivity|]. cbn [app].
+         destruct (tick_calc c (set_now s (f_now s + tick_ns))) as [sa ea] eqn:Ec.
+         pose proof (tick_calc_sp _ _ _ _ Ec) as Hq. destruct (tick_calc_quiet _ _ _ _ Ec) as [_ Hs].
+         cbn [set_now f_stopped] in Hs.
+         pose proof (with_after_sp (sa, ea)) as H1. cbn [fst snd] in H1. specialize (H1 ltac:(congruence)). rewrite Hq in H1.
+         destruct (with_after (sa, ea)) as [s1 e1]. cbn [fst snd app] in H1.
+         destruct (f_stopped s1) eqn:Hs1; [cbn [fst snd]; rewrite Hs1; exact H1|].
+         destruct (tick_ping_mode s1) as (_ & P2 & P3). destruct (tick_ping s1) as [sp0 ep0]. cbn [fst snd] in *. subst ep0.
+         pose proof (with_after_sp (sp0, [])) as H2. cbn [fst snd app] in H2. specialize (H2 ltac:(congruence)).
+         destruct (with_after (sp0, [])) as [s2 e2]. cbn [fst snd] in *. rewrite sp_app, H1, H2. reflexivity. }
     + destruct (dispatch c s j) as [s0 e0] eqn:Ed. pose proof (dispatch_sp _ _ _ _ _ Ed) as Hq.
       destruct (dispatch_frame _ _ _ _ _ Ed) as (_ & _ & F3 & _).
       exists (sp e0). split; [exact Hq|]. apply (with_after_sp (s0, e0)). cbn [fst]. congruence.
@@ -2512,7 +2652,7 @@ Proof.
   destruct (step c s o) as [s1 e1] eqn:Es. cbn [fst snd concat] in *. rewrite existsb_app.
   assert (Hnd' : NoDup (map jid (jobs_of r))).
   { unfold jobs_of in *. cbn [flat_map] in Hnd. rewrite map_app in Hnd. apply NoDup_app_r in Hnd. exact Hnd. }
-  destruct o as [j|i| |i|i|n| |dt| | |i|i|d]; cbn [after_drain_ids] in Hin;
+  destruct o as [j|i| |i|i|n| |dt| | |i|i|d| |]; cbn [after_drain_ids] in Hin;
     try (apply orb_false_iff; split;
          [destruct (existsb (is_accept id) e1) eqn:E; [destruct (Ha eq_refl) as (_ & j' & Hj & _); discriminate|reflexivity]
          |apply (IH s1 seen Hnd' (fun h => Hsc (Hcl h)) id Hin)]).
